@@ -151,6 +151,7 @@ type World struct {
 	Ticks    int
 	Restarts int
 	Mid          *MidPlan // armed mid-reconcile delivery (see MidPlan)
+	ListOrder    []Res    // order of the initial LISTs of the next StartProcess (nil = AllRes)
 	MidDelivered int
 	// captured at every StartProcess
 	StartedAt        time.Time
@@ -327,8 +328,17 @@ func (w *World) StartProcess() error {
 
 	// initial LIST: the caches start from the store as it is now; undelivered
 	// events of the previous process are gone with it.
+	// The informers of a real process sync independently of each other, so the
+	// handlers of one resource may fire before another resource's cache is filled:
+	// the order is the caller's choice (ListOrder, default jobconfigs-jobs-pods).
+	order := AllRes
+	if len(w.ListOrder) == len(AllRes) {
+		order = w.ListOrder
+	}
 	for _, r := range AllRes {
 		w.API.Pending["ctrl"][r] = nil
+	}
+	for _, r := range order {
 		for _, o := range w.API.List(r) {
 			ctx.Informer(r).Deliver("ADDED", o)
 		}
